@@ -248,7 +248,7 @@ def harnesses(tier):
     P = functools.partial
     q = tier == 'quick'
     shapes = [((2, 3), (1, 1)), ((2, 2), (2, 2)), ((1, 2), (2, 1)), ((0, 3), (1, 1)), ((2, 0), (2, 2))] if q else \
-        [((2, 3), (1, 1)), ((2, 2), (2, 2)), ((1, 2), (2, 1)), ((0, 3), (1, 1)), ((2, 0), (2, 2)), ((3, 3), (2, 2)), ((2, 2), (3, 3)),
+        [((2, 3), (1, 1)), ((2, 2), (2, 2)), ((1, 2), (2, 1)), ((0, 3), (1, 1)), ((2, 0), (2, 2)), ((3, 3), (2, 2)), ((2, 2), (3, 2)),
          ((3, 2), (1, 3)), ((1, 1), (2, 2))]
     hs = []
     for ish, msh in shapes:
@@ -275,7 +275,7 @@ META = {
                          'box position': 'unbounded symbolic integers (the solver enumerates the overlapping positions; one symbolic path for all non-overlapping ones)',
                          'pixel values, weights in [0,1], fill value': 'symbolic reals; zero pattern of the weights by path forking',
                          'dtype cases': 'int / float / Quantity data x fill in {0, 7.5, nan, inf} x 56 box positions (executed)'},
-               'thorough': {'image x mask shapes': 'adds 3x3/2x2, 2x2/3x3 (mask larger than image), 3x2/1x3, 1x1/2x2'}},
+               'thorough': {'image x mask shapes': 'adds 3x3/2x2, 2x2/3x2 (mask larger than image), 3x2/1x3, 1x1/2x2 (2x2/3x3 exceeds the path cap: 2^9 weight patterns x positions)'}},
     'outside_claim': ['larger shapes', 'numpy dtype promotion rules beyond the enumerated dtype/fill table',
                       'symbolic fill values that are non-finite (covered only in the executed dtype table)'],
     'stubs': ['regions.core.mask.np -> facade (isfinite on symbols)', 'regions.core.bounding_box._is_int/int'],
